@@ -141,6 +141,12 @@ func runOne(sc *Scenario, prefix []int, trace bool) (*vsched.Result, Exec, *eng.
 		if v.Features == nil {
 			v.Features = map[string]string{}
 		}
+		// optional: the Exec adds defect-class features to explorer-made verdict violations (deadlock, panic, ...)
+		if c, ok := x.(interface {
+			Classify(*vsched.Result, *eng.Violation)
+		}); ok && res.Verdict != "ok" {
+			c.Classify(res, v)
+		}
 		v.Features["scenario"] = sc.Name
 		v.Replay = replayRec{sc.Name, append([]int{}, res.Choices...)}
 	}
